@@ -11,8 +11,8 @@ import C03
 ID = 'C04'
 COQ_DIR = 'C04'
 EXTRA_COQ_DIRS = ('C03', 'C08')
-COQ_HEADER = 'From V Require Import Common.Num C03.Model C04.KBase C04.Model.\nOpen Scope Q_scope.'
-MODEL_FILES = ('KBase.v', 'Model.v')
+COQ_HEADER = 'From V Require Import Common.Num C03.Model C04.KBase C04.Model C04.Flx.\nOpen Scope Q_scope.'
+MODEL_FILES = ('KBase.v', 'Model.v', 'Flx.v')
 
 def translate():
     """tie T: regenerate coq/C04/Gen_kernels.v from the current source; Proofs.v proves generated = hand-written by reflexivity"""
@@ -57,6 +57,7 @@ def gen_cases(rng, tier):
         cases += PENDING      # witnesses of defects whose fix (pending_fixes/) is not in /repo yet
     cases += [gen_iter_case(rng, 2) for _ in range(n_k)]
     cases += [gen_iter_case(rng, rng.choice([1, 3, 4])) for _ in range(n_k)]
+    cases += [gen_flx_case(rng) for _ in range(80 if tier == 'quick' else 1200)]
     return cases
 
 # ---- the temperature domain of the bubble / dew point objects (equilibrium/domain.py) and what it does to a T,P flash
@@ -355,7 +356,69 @@ def coq_iter(case, out):
     return f'(itern_check {run} {exp})'
 
 
+# ---- flexsolve.IQ_interpolation (the bracketing solver behind every V / H / S specification) against coq/C04/Flx.v
+FLX_C = [0., 1., -1., 0.5, -0.5, 2., -2., 0.25, 3., -3., 0.125]
+FLX_X = [0., 1., -1., 2., -2., 0.5, 1.5, -1.5, 3., 4., 0.25, 8., -4., 300., 350., 400.]
+FLX_TOL = [2. ** -10, 2. ** -14, 2. ** -20, 2. ** -24, 2. ** -30, 0., 1., -1.]
+def _cubic(c, x):
+    return c[0] + x * (c[1] + x * (c[2] + x * c[3]))
+def gen_flx_case(rng):
+    """cubic residuals with dyadic coefficients; brackets with and without a sign change, in both orientations; the
+    end values given (exactly f's) or left to the solver; a guess inside, outside or absent; tolerances incl. 0 and
+    negative; maxiter incl. 0; the three optional checks mostly off (the way vle.py calls it)"""
+    while True:
+        c = [rng.choice(FLX_C) for _ in range(4)]
+        if rng.random() < 0.3: c[3] = 0.
+        if rng.random() < 0.15: c[2] = c[3] = 0.
+        if any(c[1:]): break
+    x0, x1 = rng.choice(FLX_X), rng.choice(FLX_X)
+    if rng.random() < 0.7:      # look for a sign change (mostly-valid stream)
+        for _ in range(20):
+            if _cubic(c, x0) * _cubic(c, x1) < 0: break
+            x0, x1 = rng.choice(FLX_X), rng.choice(FLX_X)
+    g = rng.random()
+    guess = None if g < 0.4 else (x0 + (x1 - x0) * rng.choice([0.5, 0.25, 0.75, 0.125])) if g < 0.8 else rng.choice(FLX_X)
+    return {'kind': 'flx', 'c': c, 'x0': x0, 'x1': x1,
+            'y0': rng.random() < 0.6, 'y1': rng.random() < 0.6, 'guess': guess,
+            'xtol': rng.choice(FLX_TOL), 'ytol': rng.choice(FLX_TOL[:6] if rng.random() < 0.85 else FLX_TOL),
+            'maxiter': rng.choice([0, 1, 2, 3, 5, 8, 20, 20, 50]),
+            'checkroot': rng.random() < 0.15, 'checkiter': rng.random() < 0.25, 'checkbounds': rng.random() < 0.25}
+
+def run_flx(case):
+    import flexsolve as flx
+    c = case['c']; ys = []
+    def f(x):
+        y = _cubic(c, x); ys.append(y); return y
+    y0 = _cubic(c, case['x0']) if case['y0'] else None
+    y1 = _cubic(c, case['x1']) if case['y1'] else None
+    try:
+        x = flx.IQ_interpolation(f, case['x0'], case['x1'], y0, y1, case['guess'], case['xtol'], case['ytol'], (),
+                                 case['maxiter'], case['checkroot'], case['checkiter'], case['checkbounds'])
+        out = {'x': float(x), 'err': None}
+    except ValueError: out = {'x': None, 'err': 'EValue'}
+    except RuntimeError: out = {'x': None, 'err': 'ERuntime'}
+    except (ZeroDivisionError, FloatingPointError): out = {'x': None, 'err': 'EZeroDiv'}
+    out['calls'] = len(ys)
+    # exact rationals decide signs and tolerance tests in the model; a residual at rounding level (or within rounding of a
+    # tolerance) is decided by rounding in the implementation: those runs are counted, not compared
+    tols = [abs(case['ytol'])]
+    scale = max(1., max(abs(v) for v in c)) * max(1., abs(case['x0']), abs(case['x1'])) ** 3
+    out['ill'] = any(abs(y) < 1e-9 * scale or any(abs(abs(y) - t) < 1e-9 * scale for t in tols) for y in ys[:-1]) or \
+                 (bool(ys) and abs(ys[-1]) < 1e-13 * scale and ys[-1] != 0.)
+    return out
+
+def coq_flx(case, out):
+    if out['ill']: return 'true'
+    c = case['c']
+    cfg = f'(mkiqcfg {q(case["xtol"])} {q(case["ytol"])} {cbool(case["checkroot"])} {cbool(case["checkiter"])} {cbool(case["checkbounds"])})'
+    oy0 = copt(_cubic(c, case['x0']) if case['y0'] else None, q)
+    oy1 = copt(_cubic(c, case['x1']) if case['y1'] else None, q)
+    exp = f'(Err {out["err"]})' if out['err'] else f'(Ok ({q(out["x"])}, {cnat(out["calls"])}))'
+    return (f'(C04.Flx.flx_check {q(c[0])} {q(c[1])} {q(c[2])} {q(c[3])} {cfg} {cnat(case["maxiter"])} {q(case["x0"])} {q(case["x1"])} '
+            f'{oy0} {oy1} {copt(case["guess"], q)} {exp})')
+
 def run_impl(case):
+    if case['kind'] == 'flx': return run_flx(case)
     if case['kind'] == 'dom': return run_dom(case)
     if case['kind'] == 'rr2':
         C03.env()
@@ -375,6 +438,7 @@ def run_impl(case):
 
 def coq_case(case, out):
     if case['kind'] == 'dom': return coq_dom(case, out)
+    if case['kind'] == 'flx': return coq_flx(case, out)
     if case['kind'] == 'xpkg':
         return coq_xpkg(case, out)
     if case['kind'] in ('it2', 'itn'):
@@ -394,6 +458,7 @@ def coq_show(case, out):
     return C03.coq_show(case, out) if case['kind'] == 'vle' else 'tt'
 
 def nontrivial(case, out):
+    if case['kind'] == 'flx': return not out['ill'] and out['calls'] >= 3
     if case['kind'] == 'dom': return len(set(out['tmaxs'])) >= 2 or len(set(out['tmins'])) >= 2
     if case['kind'] == 'vleh': return C03.nontrivial(case, out)
     if case['kind'] == 'xpkg': return len({o['bubble'][0] for o in out['steps']}) >= 2
@@ -402,6 +467,8 @@ def nontrivial(case, out):
     return C03.nontrivial(case, out) or (out['init']['T'], out['init']['P']) != (out['final']['T'], out['final']['P'])
 
 def classify(case, out):
+    if case['kind'] == 'flx':
+        return ['flx:' + ('rounding-level residual (not compared)' if out['ill'] else out['err'] or ('returned after %s evaluations' % ('1-3' if out['calls'] <= 3 else '4-8' if out['calls'] <= 8 else '9+')))]
     if case['kind'] == 'dom': return ['dom:' + ('database chemicals' if case['real'] else 'stand-in limits')]
     if case['kind'] == 'vleh': return C03.classify(case, out)
     if case['kind'] == 'xpkg': return ['xpkg:' + ''.join(s_['pkg'] for s_ in case['steps'])]
